@@ -298,9 +298,10 @@ void h_levels(void)
 }
 ''' % dict(pre=pre),
         entry='h_levels', defines={'TPARAM': 1 if flag else 0, 'SWEEP_FWD': 1 if flag else 0, 'NT': 1, 'OMPK': 1},
-        variants=[{'NMAX': 4, 'ZMAX': 6}],
+        # Gauss-Seidel levels: the second pass over each row (not-yet-swept neighbours) makes nnz <= 6 too slow for the quick tier
+        variants=[{'NMAX': 4, 'ZMAX': 4}] if gs else [{'NMAX': 4, 'ZMAX': 6}],
         thorough_variants=[{'NMAX': 4, 'ZMAX': 6}, {'NMAX': 5, 'ZMAX': 8}],
-        bound_text='all square matrices with n <= 4, nnz <= 6 (thorough: n <= 5, nnz <= 8), pattern symbolic; independent of the thread count',
+        bound_text=('all square matrices with n <= 4, nnz <= %d (thorough: nnz <= 6 and n <= 5, nnz <= 8), pattern symbolic; independent of the thread count' % (4 if gs else 6)),
         witness=wit('A'), cover_exempt=exempt,
         not_decided=['n beyond the bound'])
 
